@@ -21,6 +21,19 @@ pub fn profile(name: &str) -> Option<Profile> {
             oracles: Oracles { c01: true, ..Default::default() },
             ..base
         },
+        "c05" => Profile {
+            name: "c05",
+            oracles: Oracles { c05: true, ..Default::default() },
+            gen_cfg: GenCfg {
+                invalid_pct: 35,
+                w_config: 60,
+                w_entitlement: 18,
+                w_removal: 4,
+                w_keyroll: 6,
+                ..GenCfg::default()
+            },
+            ..base
+        },
         "all" => Profile {
             name: "all",
             oracles: Oracles::all(),
